@@ -135,6 +135,10 @@ mutual
     | .prim "SUB" [] _ => some .SUB
     | .prim "MUL" [] _ => some .MUL
     | .prim "NEG" [] _ => some .NEG
+    | .prim "EDIV" [] _ => some .EDIV
+    | .prim "LSL" [] _ => some .LSL
+    | .prim "LSR" [] _ => some .LSR
+    | .prim "SUB_MUTEZ" [] _ => some .SUB_MUTEZ
     | .prim "ABS" [] _ => some .ABS
     | .prim "ISNAT" [] _ => some .ISNAT
     | .prim "INT" [] _ => some .INT
@@ -205,6 +209,7 @@ mutual
     | .CONS => .prim "CONS" [] [] | .SIZE => .prim "SIZE" [] []
     | .EMPTY_MAP k v => .prim "EMPTY_MAP" [tyToMich k, tyToMich v] []
     | .ADD => .prim "ADD" [] [] | .SUB => .prim "SUB" [] [] | .MUL => .prim "MUL" [] []
+    | .EDIV => .prim "EDIV" [] [] | .LSL => .prim "LSL" [] [] | .LSR => .prim "LSR" [] [] | .SUB_MUTEZ => .prim "SUB_MUTEZ" [] []
     | .NEG => .prim "NEG" [] [] | .ABS => .prim "ABS" [] [] | .ISNAT => .prim "ISNAT" [] []
     | .INT => .prim "INT" [] [] | .COMPARE => .prim "COMPARE" [] []
     | .EQ => .prim "EQ" [] [] | .NEQ => .prim "NEQ" [] [] | .LT => .prim "LT" [] [] | .GT => .prim "GT" [] []
